@@ -11,6 +11,7 @@ variable [Rules]
 
 def notTent (o : Obj) : Bool := !o.isTentative
 
+omit [Rules] in
 /-- a type update of the first tentative definition of a name leaves the non-tentative objects alone -/
 theorem filter_notTent_updFirst (s : Sym) (t : ObjTy) : ∀ l : List Obj,
     (updFirst (isTentOf s) (fun o => { o with ty := t }) l).filter notTent = l.filter notTent
@@ -25,6 +26,7 @@ theorem filter_notTent_updFirst (s : Sym) (t : ObjTy) : ∀ l : List Obj,
       simp only [List.filter]
       rw [filter_notTent_updFirst s t as]
 
+omit [Rules] in
 theorem filter_notTent_scanLoop (all : List Obj) : ∀ (n : Nat) (l : List Obj), l.length ≤ n →
     (scanLoop all n l).filter notTent = l.filter notTent := by
   intro n
@@ -60,9 +62,11 @@ theorem filter_notTent_scanLoop (all : List Obj) : ∀ (n : Nat) (l : List Obj),
             simp only [List.filter, hc]
             exact ih as hn'
 
+omit [Rules] in
 theorem filter_notTent_scanCore (gs : List Obj) : (scanCore gs).filter notTent = gs.filter notTent :=
   filter_notTent_scanLoop gs gs.length gs (Nat.le_refl _)
 
+omit [Rules] in
 /-- `find?` only looks at the sublist where the predicate can hold -/
 theorem find?_filter_of_imp {p q : Obj → Bool} : ∀ (l : List Obj), (∀ o, o ∈ l → p o = true → q o = true) →
     l.find? p = (l.filter q).find? p
@@ -77,11 +81,13 @@ theorem find?_filter_of_imp {p q : Obj → Bool} : ∀ (l : List Obj), (∀ o, o
     · have hq : q a = true := h a List.mem_cons_self hp
       simp [List.find?, hp, List.filter, hq]
 
+omit [Rules] in
 theorem fnNotTent_of_tyRel {l l' : List Obj} (h : TyRel l l') (hf : FnNotTent l) : FnNotTent l' := by
   intro b hb hfun
   obtain ⟨a, ha, t, rfl⟩ := h.mem hb
   exact hf a ha hfun
 
+omit [Rules] in
 theorem fnNotTent_scanCore {gs : List Obj} (hf : FnNotTent gs) : FnNotTent (scanCore gs) := by
   intro b hb hfun
   -- a member of the result is, up to its type, a member of `scanPure gs gs`, which is a sublist of `gs`
@@ -106,6 +112,7 @@ theorem fnNotTent_scanCore {gs : List Obj} (hf : FnNotTent gs) : FnNotTent (scan
   obtain ⟨a, ha, t, rfl⟩ := (scanCore_tyRel gs).mem hb
   exact hf a (hsub gs gs a ha) hfun
 
+omit [Rules] in
 theorem fnPred_notTent {gs : List Obj} (hf : FnNotTent gs) (f : Name) :
     ∀ o, o ∈ gs → fnPred f o = true → notTent o = true := by
   intro o ho hp
@@ -113,6 +120,7 @@ theorem fnPred_notTent {gs : List Obj} (hf : FnNotTent gs) (f : Name) :
   simp only [Bool.and_eq_true] at hp
   simp [notTent, hf o ho hp.1]
 
+omit [Rules] in
 /-- `scan_globals` does not change what `find_func` returns -/
 theorem findFunc_scanCore {gs : List Obj} (hf : FnNotTent gs) (f : Name) :
     findFunc (scanCore gs) f = findFunc gs f := by
@@ -120,6 +128,7 @@ theorem findFunc_scanCore {gs : List Obj} (hf : FnNotTent gs) (f : Name) :
     find?_filter_of_imp (q := notTent) _ (fnPred_notTent (fnNotTent_scanCore hf) f),
     find?_filter_of_imp (q := notTent) gs (fnPred_notTent hf f), filter_notTent_scanCore]
 
+omit [Rules] in
 theorem filterMap_emitTextFn_filter : ∀ (l : List Obj), FnNotTent l →
     l.filterMap emitTextFn = (l.filter notTent).filterMap emitTextFn
   | [], _ => rfl
@@ -135,12 +144,14 @@ theorem filterMap_emitTextFn_filter : ∀ (l : List Obj), FnNotTent l →
       simp only [List.filter, hnt, List.filterMap_cons]
       rw [ih]
 
+omit [Rules] in
 /-- ... nor which functions are printed -/
 theorem emitText_scanCore {gs : List Obj} (hf : FnNotTent gs) : emitText (scanCore gs) = emitText gs := by
   unfold emitText
   rw [filterMap_emitTextFn_filter _ (fnNotTent_scanCore hf), filterMap_emitTextFn_filter _ hf,
     filter_notTent_scanCore]
 
+omit [Rules] in
 /-- a function object is in the list after `scan_globals` iff it was before -/
 theorem mem_scanCore_fn {gs : List Obj} (hf : FnNotTent gs) {o : Obj} (hfun : o.isFunction = true) :
     o ∈ scanCore gs ↔ o ∈ gs := by
@@ -158,6 +169,7 @@ theorem mem_scanCore_fn {gs : List Obj} (hf : FnNotTent gs) {o : Obj} (hfun : o.
 
 /-! ### what `mark_live` keeps -/
 
+omit [Rules] in
 theorem LiveUpd.fnNamesOf {gs gs' : List Obj} (h : LiveUpd gs gs') : fnNamesOf gs' = fnNamesOf gs := by
   induction h with
   | nil => rfl
@@ -167,6 +179,7 @@ theorem LiveUpd.fnNamesOf {gs gs' : List Obj} (h : LiveUpd gs gs') : fnNamesOf g
     · simp only [ChibiVerif.Linkage.fnNamesOf, List.filterMap_cons] at ih ⊢
       rw [ih]; rfl
 
+omit [Rules] in
 theorem LiveUpd.fnNotTent {gs gs' : List Obj} (h : LiveUpd gs gs') (hf : FnNotTent gs) : FnNotTent gs' := by
   intro o' ho' hfun
   obtain ⟨o, ho, hh⟩ := h.mem ho'
@@ -174,12 +187,14 @@ theorem LiveUpd.fnNotTent {gs gs' : List Obj} (h : LiveUpd gs gs') (hf : FnNotTe
   · exact hf _ ho hfun
   · exact hf o ho hfun
 
+omit [Rules] in
 /-- the per-object flag of a function is what `find_func(name)->is_live` says -/
 theorem isLive_eq_liveFn {gs : List Obj} (hn : (fnNamesOf gs).Nodup) {o : Obj} {f : Name} (ho : o ∈ gs)
     (hfun : o.isFunction = true) (hs : o.sym = .named f) : o.isLive = liveFn gs f := by
   unfold liveFn
   rw [findFunc_of_mem hn ho hfun hs]
 
+omit [Rules] in
 theorem refs_eq_refsOf {gs : List Obj} (hn : (fnNamesOf gs).Nodup) {o : Obj} {f : Name} (ho : o ∈ gs)
     (hfun : o.isFunction = true) (hs : o.sym = .named f) : o.refs = refsOf gs f := by
   unfold refsOf
